@@ -193,6 +193,7 @@ def cmd_setup():
         build_pch(variant, lh)
     with cf.ThreadPoolExecutor(max(1, NCPU // 2)) as ex:
         list(ex.map(lambda ev: build_engine(*ev), evs))
+    build_shim()
     log("[setup] %d engine binaries ready in %.0fs" % (len(evs), time.time() - t0))
     return 0
 
@@ -203,6 +204,9 @@ UB_RE = re.compile(r"^(\S+?):(\d+):(\d+): runtime error: (.*)$", re.M)
 ASSERT_RE = re.compile(r"^(?:\S+: )?(?:\S*/)?([^/\s:]+):\d+: (.*?): Assertion `(.*)' failed", re.M)
 GLIBCXX_RE = re.compile(r"^(/usr/include\S+):\d+: (.*?): Assertion '(.*)' failed", re.M)
 FRAME_RE = re.compile(r"^\s*#\d+ 0x[0-9a-f]+ in (.+?) (/\S+?):(\d+)", re.M)
+
+
+REPO_FILES = set(os.path.basename(f) for f in glob.glob(os.path.join(REPO, "src", "*.cpp")) + glob.glob(os.path.join(REPO, "include", "simulator", "*.hpp")))
 
 
 def squash(s):
@@ -222,7 +226,20 @@ def first_repo_frame(text):
     return "?"
 
 
+VG_RE = re.compile(r"==\d+== (Syscall param \S+ points to uninitialised byte\(s\)|Conditional jump or move depends on uninitialised value\(s\)|Use of uninitialised value of size \d+|Invalid (?:read|write) of size \d+)")
+VG_FRAME_RE = re.compile(r"==\d+==\s+(?:at|by) 0x[0-9A-F]+: (.+?) \((\S+?):(\d+)\)")
+
+
 def classify_crash(stderr_text, rc):
+    m = VG_RE.search(stderr_text)
+    if m:
+        where = "?"
+        for fm in VG_FRAME_RE.finditer(stderr_text[m.start():]):
+            if fm.group(2).endswith((".cpp", ".hpp")) and not fm.group(2).startswith(("vf", "e_")) and "/usr/" not in fm.group(2) and "bits/" not in fm.group(0) \
+                    and fm.group(2) in REPO_FILES:
+                where = "%s:%s" % (fm.group(2), re.sub(r"\(.*$", "", fm.group(1)).split("::")[-1])
+                break
+        return "memcheck:%s@%s" % (squash(m.group(1)), where)
     m = SAN_RE.search(stderr_text)
     if m and m.group(1) == "ABRT":
         # abort() from assert()/libstdc++ assertions/terminate: classify by the message
@@ -369,6 +386,95 @@ def run_chunk(binp, job, pid, tier, seed, first, count, workdir, idx, timeout, e
     return sums, viols, inconc
 
 
+def build_shim():
+    src = os.path.join(HARNESS, "clockskew.c")
+    hsh = file_hash([src])
+    d = os.path.join(BUILD, "shim-" + hsh)
+    so = os.path.join(d, "clockskew.so")
+    if not os.path.exists(so):
+        with Lock(os.path.join(BUILD, "shim.lock")):
+            if not os.path.exists(so):
+                os.makedirs(d, exist_ok=True)
+                run_cc(["gcc", "-O1", "-shared", "-fPIC", src, "-o", so + ".tmp", "-ldl"])
+                os.rename(so + ".tmp", so)
+    return so
+
+
+def c01_program(args):
+    """runs one generated program in every environment and compares trace + pcap digests"""
+    (c, seed, tier, plain, asan, shim, workdir, with_memcheck) = args
+    base = ["--prop", "C01", "--tier", tier, "--seed", str(seed), "--mode", "one", "--first", str(c), "--count", "1"]
+    penv = dict(os.environ)
+    penv["VERIF_TMP"] = workdir
+    aenv = dict(penv)
+    aenv.update(RUN_ENV)
+    big = "x" * (1000 + (seed * 7919 + c * 104729) % 60000)
+    envs = [
+        ("reference(plain,hook idle)", [plain] + base, penv),
+        ("MALLOC_PERTURB_=85", [plain] + base, dict(penv, MALLOC_PERTURB_="85")),
+        ("MALLOC_PERTURB_=170", [plain] + base, dict(penv, MALLOC_PERTURB_="170")),
+        ("MALLOC_PERTURB_=seed", [plain] + base, dict(penv, MALLOC_PERTURB_=str(1 + (seed * 31 + c) % 254))),
+        ("no-ASLR+big-env+heap-ballast", ["setarch", "-R", plain] + base + ["--prealloc", str(100 + (c * 37) % 5000)], dict(penv, VERIF_BALLAST=big)),
+        ("ASLR+heap-ballast", [plain] + base + ["--prealloc", str(1 + (c * 101) % 9000)], penv),
+        ("after-other-simulations", [plain] + base + ["--warmup", str(1 + c % 3)], penv),
+        ("wall-clock-skewed", [plain] + base, dict(penv, LD_PRELOAD=shim, VERIF_SKEW_SEED=str(seed + c), VERIF_SKEW_REPORT=os.path.join(workdir, "skew-%d" % c))),
+        ("no-step-hook(poll)", [plain] + base + ["--hook", "0"], penv),
+        ("asan-allocator", [asan] + base, aenv),
+    ]
+    if with_memcheck:
+        envs.append(("valgrind-memcheck", ["valgrind", "-q", "--error-exitcode=9", "--track-origins=no", plain] + base, penv))
+    ref = None
+    viols = []
+    ran = 0
+    events = 0
+    inconc = []
+    desc = ""
+    for name, cmd, env in envs:
+        try:
+            p = subprocess.run(cmd, stdout=subprocess.PIPE, stderr=subprocess.PIPE, env=env, cwd=workdir, timeout=900)
+        except subprocess.TimeoutExpired:
+            inconc.append("C01 program %d environment %s timed out" % (c, name))
+            continue
+        out = p.stdout.decode("utf-8", "replace")
+        err = p.stderr.decode("utf-8", "replace")
+        dig = None
+        for line in out.splitlines():
+            if line.startswith('{"t":"digest"'):
+                dig = json.loads(line)
+            elif line.startswith('{"t":"viol"'):
+                o = json.loads(line)
+                o.update({"engine": "pcap", "variant": "plain", "job": "replay"})
+                viols.append(o)
+        if p.returncode != 0 or dig is None:
+            key = "crash:" + classify_crash(err, p.returncode)
+            viols.append({"t": "viol", "prop": "C01", "key": key + "|" + name.split("(")[0], "case": c, "detail": err[-3000:],
+                          "desc": "program %d died in environment %s (rc=%s)" % (c, name, p.returncode), "engine": "pcap", "variant": "plain", "job": "replay"})
+            continue
+        ran += 1
+        desc = dig.get("desc", desc)
+        if ref is None:
+            ref = dig
+            events = dig["events"]
+            continue
+        for what in ("trace", "pcap"):
+            if dig[what] != ref[what] or (what == "trace" and dig["events"] != ref["events"]):
+                viols.append({"t": "viol", "prop": "C01", "key": "%s-differs:%s" % (what, name.split("(")[0]), "case": c,
+                              "detail": "program %d: %s digest %s (%d events, %d pcap bytes) in environment '%s' but %s (%d events, %d pcap bytes) in the reference run"
+                                        % (c, what, dig[what], dig["events"], dig["pcap_bytes"], name, ref[what], ref["events"], ref["pcap_bytes"]),
+                              "desc": desc, "engine": "pcap", "variant": "plain", "job": "replay"})
+    skew_calls = 0
+    try:
+        skew_calls = sum(int(x) for x in open(os.path.join(workdir, "skew-%d" % c)).read().split())
+    except Exception:
+        pass
+    summ = {"t": "sum", "cases": 1, "counters": {"programs": 1, "environment_runs": ran, "trace_events_per_reference_run": events,
+                                                  "wall_clock_queries_answered_with_skewed_time": skew_calls,
+                                                  "memcheck_runs": 1 if with_memcheck else 0},
+            "samples": [desc] if desc else [], "exhaustive": False,
+            "sigs": [int(hashlib.sha256(desc.encode()).hexdigest()[:15], 16)] if desc else []}
+    return [summ], viols, inconc
+
+
 def write_replay(pid, v, tier, seed):
     d = os.path.join(ROOT, "replays")
     os.makedirs(d, exist_ok=True)
@@ -405,10 +511,24 @@ def cmd_run(pid, tier, seed):
     per_job = []
     nsig_files = []
     try:
-        jobs = [j for j in P["jobs"] if tier in j.get("tiers", ("quick", "thorough"))]
+        alljobs = [j for j in P["jobs"] if tier in j.get("tiers", ("quick", "thorough"))]
+        jobs = [j for j in alljobs if "py" not in j]
+        pyjobs = [j for j in alljobs if "py" in j]
         # build everything first (parallel)
         with cf.ThreadPoolExecutor(4) as ex:
             bins = list(ex.map(lambda j: build_engine(j["engine"], j.get("variant", "asan")), jobs))
+        pyresults = []
+        for j in pyjobs:
+            if j["py"] == "c01":
+                plain = build_engine("pcap", "plain")
+                asan = build_engine("pcap", "asan")
+                shim = build_shim()
+                n = j["args"]["n"][tier]
+                nmem = j["args"]["memcheck"][tier]
+                per_job.append({"job": "replay", "engine": "pcap", "variant": "plain+asan", "planned_cases": n, "exhaustive": False})
+                exhaustive_all = False
+                with cf.ThreadPoolExecutor(NCPU) as ex:
+                    pyresults += list(ex.map(c01_program, [(c, seed, tier, plain, asan, shim, workdir, c < nmem) for c in range(n)]))
         tasks = []
         for ji, (job, binp) in enumerate(zip(jobs, bins)):
             plan = engine_plan(binp, job, pid, tier, seed)
@@ -433,7 +553,10 @@ def cmd_run(pid, tier, seed):
                                       job.get("env")))
             for f in futs:
                 results.append(f.result())
-        for (sums, viols, inc), (ji, binp, job, first, cnt) in zip(results, tasks):
+        for (sums, viols, inc) in pyresults:
+            results.append((sums, viols, inc))
+            tasks.append(None)
+        for (sums, viols, inc), _task in zip(results, tasks):
             inconclusive += inc
             all_viols += viols
             for s in sums:
@@ -447,6 +570,9 @@ def cmd_run(pid, tier, seed):
                     if len(samples) < 8 and smp not in samples:
                         samples.append(smp)
         sigset = set()
+        for (sums, viols, inc) in results:
+            for sm in sums:
+                sigset.update(sm.get("sigs", []))
         for f in glob.glob(os.path.join(workdir, "sigs-*")):
             a = array.array("Q")
             with open(f, "rb") as fh:
@@ -528,6 +654,18 @@ def cmd_replay(path):
     rec = json.load(open(path))
     pid = rec["property"]
     P = PROPS[pid]
+    if rec.get("job") == "replay" and pid == "C01":
+        os.makedirs(os.path.join(BUILD, "work"), exist_ok=True)
+        workdir = tempfile.mkdtemp(prefix="replay-", dir=os.path.join(BUILD, "work"))
+        try:
+            sums, viols, inc = c01_program((rec["case"], rec["seed"], rec["tier"], build_engine("pcap", "plain"), build_engine("pcap", "asan"),
+                                            build_shim(), workdir, True))
+        finally:
+            shutil.rmtree(workdir, ignore_errors=True)
+        for v in viols:
+            print("%s key=%s case=%d\n  %s\n  %s" % (v["prop"], v["key"], v["case"], v.get("desc", ""), v.get("detail", "")[-3000:]))
+        print("replay: %d violation(s) of %s reproduced (run the engine with --mode one --verbose in two environments to diff the traces)" % (len(viols), pid))
+        return 1 if viols else 0
     job = None
     for j in P["jobs"]:
         if j.get("name", j["engine"]) == rec.get("job") or (job is None and j["engine"] == rec["engine"]):
